@@ -16,6 +16,7 @@ func typeClosure(t types.Type) []*types.Named {
 	var out []*types.Named
 	var visit func(t types.Type)
 	visit = func(t types.Type) {
+		t = types.Unalias(t) // type Features = []Feature
 		switch x := t.(type) {
 		case *types.Named:
 			if seen[x] {
@@ -47,6 +48,7 @@ func typeClosure(t types.Type) []*types.Named {
 }
 
 func jsonKindOK(t types.Type, closure map[*types.Named]bool) bool {
+	t = types.Unalias(t)
 	switch x := t.(type) {
 	case *types.Basic:
 		return x.Info()&(types.IsString|types.IsInteger|types.IsBoolean|types.IsFloat) != 0
